@@ -610,6 +610,19 @@ def run(m: Model, r: Report, tier: str) -> None:
         if fnm == "RawPositiveResponse":
             pd_ = _mte.eval_expr(call.args[0], env_, _orc)
             return _mte.Obj(kind="pos", pdu=pd_, service_id=pd_[0] - off_c)
+        if isinstance(call.func, ast.Name) and call.func.id in pp_.module.functions and not call.keywords:
+            # a helper of the same module (e.g. the handler's body extracted into a private function): interpreted as well
+            hf = pp_.module.functions[call.func.id]
+            hp = hf.params()
+            if len(hp) == len(call.args):
+                env_h = dict(env_)
+                for pn_, a_ in zip(hp, call.args):
+                    v_ = _mte.eval_expr(a_, env_, _orc)
+                    env_h[pn_] = v_
+                    if v_ == "REQ":
+                        env_h[f"{pn_}.service_id"] = SID
+                ret_h, env_r = _mte.run_function(hf.node, env_h, _orc)
+                return _mte.eval_expr(ret_h.value, env_r, _orc) if ret_h is not None and ret_h.value is not None else None
         return NotImplemented
     for label, pdus in samples.items():
         bad, unknown = [], None
@@ -620,6 +633,14 @@ def run(m: Model, r: Report, tier: str) -> None:
                 out = "falls through"
             except _mte.Raised as ex_:
                 out = ast.unparse(ex_.node.exc.func if isinstance(ex_.node.exc, ast.Call) else ex_.node.exc).split(".")[-1] if ex_.node.exc is not None else "re-raise"
+                # the arguments of the raised exception are evaluated first: a helper called there may itself raise (the mismatch)
+                if isinstance(ex_.node.exc, ast.Call):
+                    try:
+                        for a_ in ex_.node.exc.args:
+                            if any(isinstance(x, ast.Call) and isinstance(x.func, ast.Name) and x.func.id in pp_.module.functions for x in ast.walk(a_)):
+                                _mte.eval_expr(a_, env, _orc)
+                    except _mte.Raised as ex2_:
+                        out = ast.unparse(ex2_.node.exc.func if isinstance(ex2_.node.exc, ast.Call) else ex2_.node.exc).split(".")[-1] if ex2_.node.exc is not None else "re-raise"
             except _mte._Return:
                 out = "returns"
             except AnalysisError as ex_:
